@@ -44,3 +44,60 @@ Qed.
 
 Lemma str_eq_dec (a b : str) : {a = b} + {a <> b}.
 Proof. destruct (list_eqb a b) eqn:E; [left; apply list_eqb_eq; exact E|right; apply list_eqb_neq; exact E]. Qed.
+
+(* ------------------------------------------------------------------ str(int) / int(str) on decimal text *)
+Lemma dec_digit_step n acc a : n < 10 -> dec_digits ((48 + n) :: acc) a = dec_digits acc (a * 10 + n).
+Proof.
+  intro H. cbn [dec_digits]. unfold is_digit.
+  replace ((48 <=? 48 + n) && (48 + n <=? 57)) with true by (symmetry; lia).
+  replace (48 + n - 48) with n by lia. reflexivity.
+Qed.
+
+Lemma dec_go_digits f : forall n acc, n < 2 ^ N.of_nat f -> dec_digits (dec_go f n acc) 0 = dec_digits acc n.
+Proof.
+  induction f as [|f IH]; intros n acc Hn.
+  - cbn [N.of_nat] in Hn. rewrite N.pow_0_r in Hn. assert (n = 0) by lia. subst. reflexivity.
+  - cbn [dec_go]. assert (Hm : n mod 10 < 10) by (apply N.mod_lt; lia).
+    destruct (n / 10 =? 0) eqn:E.
+    + apply N.eqb_eq in E. rewrite dec_digit_step by exact Hm. f_equal.
+      rewrite (N.div_mod n 10) at 2 by lia. rewrite E. lia.
+    + rewrite IH.
+      * rewrite dec_digit_step by exact Hm. f_equal. rewrite (N.div_mod n 10) at 3 by lia. lia.
+      * rewrite Nat2N.inj_succ, N.pow_succ_r' in Hn.
+        apply N.div_lt_upper_bound; [lia|]. lia.
+Qed.
+
+Lemma pos_lt_pow p : N.pos p < 2 ^ N.of_nat (Pos.size_nat p).
+Proof.
+  induction p as [p IH|p IH|]; cbn [Pos.size_nat].
+  - rewrite Nat2N.inj_succ, N.pow_succ_r'. change (N.pos p~1) with (2 * N.pos p + 1). lia.
+  - rewrite Nat2N.inj_succ, N.pow_succ_r'. change (N.pos p~0) with (2 * N.pos p). lia.
+  - reflexivity.
+Qed.
+
+Lemma dec_of_N_digits n : dec_digits (dec_of_N n) 0 = Some n.
+Proof.
+  unfold dec_of_N. rewrite dec_go_digits; [reflexivity|].
+  rewrite Nat2N.inj_succ, N.pow_succ_r'. unfold N.size_nat. destruct n as [|p]; [reflexivity|].
+  pose proof (pos_lt_pow p). lia.
+Qed.
+
+Lemma dec_of_N_head n : match dec_of_N n with c :: _ => is_digit c = true | [] => False end.
+Proof.
+  unfold dec_of_N. generalize (@nil N) as acc. generalize (N.size_nat n) as f. intros f. revert n.
+  induction f as [|f IH]; intros n acc; cbn [dec_go].
+  - assert (Hm : n mod 10 < 10) by (apply N.mod_lt; lia). destruct (n / 10 =? 0); unfold is_digit; lia.
+  - assert (Hm : n mod 10 < 10) by (apply N.mod_lt; lia). destruct (n / 10 =? 0); [unfold is_digit; lia|apply IH].
+Qed.
+
+Theorem parse_dec_of_Z z : parse_dec (dec_of_Z z) = Some z.
+Proof.
+  unfold dec_of_Z, parse_dec. destruct z as [|p|p].
+  - reflexivity.
+  - pose proof (dec_of_N_head (Z.to_N (Z.pos p))) as Hh. pose proof (dec_of_N_digits (Z.to_N (Z.pos p))) as Hd.
+    destruct (dec_of_N (Z.to_N (Z.pos p))) as [|c r]; [contradiction|].
+    assert (c =? 45 = false) by (unfold is_digit in Hh; lia). rewrite H, Hd. reflexivity.
+  - rewrite N.eqb_refl. pose proof (dec_of_N_head (N.pos p)) as Hh. pose proof (dec_of_N_digits (N.pos p)) as Hd.
+    destruct (dec_of_N (N.pos p)) as [|c r]; [contradiction|]. rewrite Hd. reflexivity.
+Qed.
+
